@@ -8,9 +8,13 @@ def run(tier):
     r = tlc.run("Sections.tla", "Sections.cfg", workers=12, timeout=1800, heap="12g")
     c.add_tlc(r, "placement of temperature / composition models at feature / section / segment level for each of three coordinates")
     beh = list(dict.fromkeys(r.behaviours))
+    gv = [b for b in beh if '"sections-gv"' in b[:100]]        # grains / velocity placement: always all of them
+    if not gv: raise tlc.SetupError("Sections.tla emitted no grains / velocity placement behaviours")
+    beh = [b for b in beh if '"sections-gv"' not in b[:100]]
     if tier != "thorough":
         geo = [b for b in beh if '"geometry"' in b[:400]]
         beh = [b for b in beh if '"geometry"' not in b[:400]][::2] + geo[::3]
+    beh += gv
     res = replay.replay(exe, beh, shards=16, timeout_s=120)
     c.add_replay(res, "as-written vs explicit vs repeated layouts (bitwise), resolved values, interpolation bounds, locality of an override")
     c.sample(beh[len(beh) // 2][:3000] + "...")
@@ -24,6 +28,7 @@ def run(tier):
                           "one coordinate's entry leaves the answers outside its two neighbours bit-identical. Geometry family: a vertical two-segment feature whose "
                           "section entries override segment lengths (incl. zero-length placeholder segments) and thickness per coordinate (13^3 tables x 2 "
                           "kinds; quick every third): which segment a depth falls in, where the feature ends and how thick it is lie between the two "
-                          "neighbouring sections' values and equal a section's own at its coordinate. non-trivial: placements / tables with at least one entry")
+                          "neighbouring sections' values and equal a section's own at its coordinate. Grains and velocity models declared for one coordinate at "
+                          "section or segment level, with or without a feature-level model, against the explicit and the repeated layout, bitwise. non-trivial: placements / tables with at least one entry")
     c.assumptions += ["uniform models; straight trench (the interpolation weight is only asserted to be a convex combination, as the statement says)"]
     return c.finish()
